@@ -204,9 +204,22 @@ pub fn judge(_cfg: &Config, case: &Case, l: &mut Local, stratum: &str) {
                         v(l, ty, "json-round-trip-changes-value", &d, format!("{ty}: from_value(to_value(v)) differs from v at {d}"), case);
                     }
                 }
-                Ok(Err(e)) => v(l, ty, "own-json-not-readable", "-", format!("{ty}: from_value(to_value(v)) fails: {}", e.chars().take(100).collect::<String>()), case),
+                Ok(Err(e)) => v(l, ty, "own-json-not-readable", &e.chars().take_while(|c| !c.is_ascii_digit()).take(50).collect::<String>(), format!("{ty}: from_value(to_value(v)) fails: {}", e.chars().take(100).collect::<String>()), case),
                 Err(_) => {}
             }
+            // every numeric component is a finite JSON number (an overflowing or non-decimal spelling the parser
+            // took shows as null, a string or an out-of-range value)
+            crate::jsonu::walk(&j, &mut |path, x| {
+                if let Value::Object(m) = x {
+                    for key in ["amount", "rate"] {
+                        if let Some(n) = m.get(key)
+                            && !n.as_f64().map(|f| f.is_finite()).unwrap_or(false)
+                        {
+                            v(l, ty, "numeric-component-not-a-finite-number", &format!("{path}/{key}"), format!("{ty}: accepted {:?}, its JSON carries {n} as {key}", input.chars().take(40).collect::<String>()), case);
+                        }
+                    }
+                }
+            });
             // the placeholder scan is done at message level only: at field level an empty string can
             // be the faithful image of an empty line that was written (a C05 matter), not a placeholder
         }
@@ -331,6 +344,18 @@ pub fn run(cfg: &Config) -> i32 {
         }
     }
     let nletters = letter_msgs.len() as u64;
+    // amount- and rate-bearing fields with the spellings a float parser would take, overflowing exponents included
+    for (ty, prefix, suffix, _, has_ccy) in super::c06::FIELDS {
+        for ccy in if *has_ccy { vec!["USD", "JPY"] } else { vec![""] } {
+            let extra = [("exp-overflow", "9e999"), ("exp-overflow-upper", "9E999"), ("exp-overflow-309", "1e309"), ("exp-overflow-comma", "1,5e999"), ("exp-underflow", "1e-999")];
+            for (_, sp) in super::c06::SPELLINGS.iter().chain(extra.iter()) {
+                spec_cands.push((ty.to_string(), format!("{}{sp}{suffix}", prefix.replace("{CCY}", ccy))));
+            }
+            // more digits than a double holds (only a parser without a length check takes them)
+            spec_cands.push((ty.to_string(), format!("{}{}{suffix}", prefix.replace("{CCY}", ccy), "9".repeat(400))));
+            spec_cands.push((ty.to_string(), format!("{}{},5{suffix}", prefix.replace("{CCY}", ccy), "9".repeat(320))));
+        }
+    }
     let nspec = spec_cands.len() as u64;
     let total_n = n_gen + ncorpus + nfield + nspec + nletters;
     let total = par_for(cfg, total_n, |i, l| {
